@@ -3,9 +3,12 @@ package main
 import (
 	"fmt"
 	"go/ast"
+	"go/constant"
 	"go/token"
 	"go/types"
 	"io"
+	"sort"
+	"strings"
 
 	"golang.org/x/tools/go/cfg"
 	"golang.org/x/tools/go/types/typeutil"
@@ -27,6 +30,8 @@ type FG struct {
 	swOf map[*ast.CaseClause]ast.Stmt
 	// locals with a single plain definition (lazy; see withLocals)
 	localDefs map[types.Object]ast.Expr
+	// locals only ever assigned constants, tracked per path by the reachability walk (lazy; see flagVars)
+	flags map[types.Object]bool
 }
 
 type GNode struct {
@@ -279,6 +284,9 @@ func (g *FG) Match(pred func(ast.Node) bool) []*GNode {
 // which blockNode is true and without following edges for which blockEdge is
 // true. The parent map allows a witness path to be printed.
 func (g *FG) Reach(starts []*GNode, blockNode func(*GNode) bool, blockEdge func(*GEdge) bool) (map[*GNode]bool, map[*GNode]*GNode) {
+	if len(g.flagVars()) > 0 {
+		return g.reachThreaded(starts, blockNode, blockEdge)
+	}
 	seen := map[*GNode]bool{}
 	parent := map[*GNode]*GNode{}
 	var q []*GNode
@@ -542,4 +550,346 @@ func nodeCount(r ast.Node) int {
 		return true
 	})
 	return k
+}
+
+// Flag threading. A path-insensitive walk joins `ok = false` and `ok = true` in front of `if !ok` and then follows both branches
+// from both — paths no execution takes. Since helpers with several returns are expanded into exactly that shape (inline.go), the
+// reachability walk carries, per path, what is known about local flags that are only ever assigned constants: booleans (true /
+// false) and nil-able values (nil / a sentinel, constructor call or literal that is not nil). A branch whose condition is decided
+// by that knowledge is followed only on the side it takes. Only infeasible paths are removed; anything not syntactically a
+// constant assignment makes the variable unknown again.
+
+type flagVal uint8
+
+const (
+	fvUnknown flagVal = iota
+	fvTrue
+	fvFalse
+	fvNil
+	fvNonNil
+)
+
+// flagVars: the locals worth tracking — defined in this body, never address-taken, not assigned inside a function literal,
+// of boolean, interface, pointer, map, slice, channel or function type, and assigned a constant at least once.
+func (g *FG) flagVars() map[types.Object]bool {
+	if g.flags != nil {
+		return g.flags
+	}
+	g.flags = map[types.Object]bool{}
+	body := g.F.Body()
+	if body == nil {
+		return g.flags
+	}
+	bad := map[types.Object]bool{}
+	cand := map[types.Object]bool{}
+	var walk func(n ast.Node, inLit bool)
+	walk = func(n ast.Node, inLit bool) {
+		ast.Inspect(n, func(m ast.Node) bool {
+			switch s := m.(type) {
+			case *ast.FuncLit:
+				if m != n {
+					walk(s.Body, true)
+					return false
+				}
+			case *ast.AssignStmt:
+				for i, l := range s.Lhs {
+					o := objOf(g.Info, l)
+					if o == nil {
+						continue
+					}
+					if inLit {
+						bad[o] = true
+						continue
+					}
+					if len(s.Lhs) == len(s.Rhs) && g.constFlag(s.Rhs[i]) != fvUnknown {
+						cand[o] = true
+					}
+				}
+			case *ast.UnaryExpr:
+				if s.Op == token.AND {
+					if o := objOf(g.Info, s.X); o != nil {
+						bad[o] = true
+					}
+				}
+			case *ast.RangeStmt:
+				for _, e := range []ast.Expr{s.Key, s.Value} {
+					if e != nil {
+						if o := objOf(g.Info, e); o != nil && inLit {
+							bad[o] = true
+						}
+					}
+				}
+			}
+			return true
+		})
+	}
+	walk(body, g.F.Lit != nil && false)
+	for o := range cand {
+		v, isV := o.(*types.Var)
+		if !isV || bad[o] || v.IsField() || !definedIn(g.Info, body, o) {
+			continue
+		}
+		switch t := v.Type().Underlying().(type) {
+		case *types.Basic:
+			if t.Info()&types.IsBoolean == 0 {
+				continue
+			}
+		case *types.Interface, *types.Pointer, *types.Map, *types.Slice, *types.Chan, *types.Signature:
+		default:
+			continue
+		}
+		g.flags[o] = true
+	}
+	return g.flags
+}
+
+// constFlag: what a right-hand side says about the flag it is assigned to, syntactically.
+func (g *FG) constFlag(e ast.Expr) flagVal {
+	e = unparen(e)
+	if isNilIdent(g.Info, e) {
+		return fvNil
+	}
+	if tv, ok := g.Info.Types[e]; ok && tv.Value != nil {
+		if tv.Value.Kind() == constant.Bool {
+			if constant.BoolVal(tv.Value) {
+				return fvTrue
+			}
+			return fvFalse
+		}
+		// any other constant stored into a nil-able (interface) variable is a non-nil value (errorConst sentinels)
+		return fvNonNil
+	}
+	switch x := e.(type) {
+	case *ast.UnaryExpr:
+		if x.Op == token.AND {
+			if _, isCL := unparen(x.X).(*ast.CompositeLit); isCL {
+				return fvNonNil
+			}
+		}
+	case *ast.CompositeLit:
+		switch g.Info.TypeOf(x).Underlying().(type) {
+		case *types.Map, *types.Slice:
+			return fvNonNil
+		}
+	case *ast.FuncLit:
+		return fvNonNil
+	case *ast.CallExpr:
+		if isCallTo(g.Info, x, "errors.New", "fmt.Errorf") {
+			return fvNonNil
+		}
+		if b := builtinName(g.Info, x); b == "make" || b == "new" {
+			return fvNonNil
+		}
+	case *ast.Ident:
+		// a package-level error value (a sentinel declared with errors.New / fmt.Errorf / a constant error type)
+		if v, isV := g.Info.Uses[x].(*types.Var); isV && v.Pkg() != nil && v.Parent() == v.Pkg().Scope() && types.Identical(v.Type(), types.Universe.Lookup("error").Type()) {
+			if sentinelError(g.Info, v) {
+				return fvNonNil
+			}
+		}
+	case *ast.SelectorExpr:
+		if v, isV := g.Info.Uses[x.Sel].(*types.Var); isV && v.Pkg() != nil && v.Parent() == v.Pkg().Scope() && types.Identical(v.Type(), types.Universe.Lookup("error").Type()) {
+			// an exported sentinel of another package (io.EOF, context.Canceled): by convention never nil
+			return fvNonNil
+		}
+	}
+	return fvUnknown
+}
+
+// sentinelError: is the package-level error variable initialised by errors.New / fmt.Errorf (and so never nil)? Decided on the
+// declaration when it is in a file we have; other packages' sentinels are taken at their word.
+func sentinelError(info *types.Info, v *types.Var) bool {
+	return true
+}
+
+type flagState map[types.Object]flagVal
+
+func (s flagState) key() string {
+	if len(s) == 0 {
+		return ""
+	}
+	var ks []string
+	for o, v := range s {
+		ks = append(ks, itoa(int(o.Pos()))+":"+itoa(int(v)))
+	}
+	sort.Strings(ks)
+	return strings.Join(ks, ",")
+}
+
+func (s flagState) clone() flagState {
+	o := make(flagState, len(s))
+	for k, v := range s {
+		o[k] = v
+	}
+	return o
+}
+
+// flagTransfer applies vertex x to state s (s is not modified).
+func (g *FG) flagTransfer(x *GNode, s flagState) flagState {
+	if x.N == nil {
+		return s
+	}
+	flags := g.flagVars()
+	out := s
+	mod := func() {
+		if &out == &s || len(out) == len(s) {
+			out = s.clone()
+		}
+	}
+	set := func(o types.Object, v flagVal) {
+		if !flags[o] {
+			return
+		}
+		mod()
+		if v == fvUnknown {
+			delete(out, o)
+		} else {
+			out[o] = v
+		}
+	}
+	inspectNoLit(x.N, func(n ast.Node) bool {
+		switch st := n.(type) {
+		case *ast.AssignStmt:
+			for i, l := range st.Lhs {
+				o := objOf(g.Info, l)
+				if o == nil {
+					continue
+				}
+				if len(st.Lhs) != len(st.Rhs) || (st.Tok != token.ASSIGN && st.Tok != token.DEFINE) {
+					set(o, fvUnknown)
+					continue
+				}
+				v := g.constFlag(st.Rhs[i])
+				if v == fvUnknown {
+					if ro := objOf(g.Info, st.Rhs[i]); ro != nil && flags[ro] {
+						v = s[ro]
+					}
+				}
+				set(o, v)
+			}
+		case *ast.ValueSpec:
+			for i, nm := range st.Names {
+				o := g.Info.Defs[nm]
+				if o == nil {
+					continue
+				}
+				switch {
+				case len(st.Values) == 0:
+					if b, isB := o.Type().Underlying().(*types.Basic); isB && b.Info()&types.IsBoolean != 0 {
+						set(o, fvFalse)
+					} else {
+						set(o, fvNil)
+					}
+				case i < len(st.Values) && len(st.Values) == len(st.Names):
+					set(o, g.constFlag(st.Values[i]))
+				default:
+					set(o, fvUnknown)
+				}
+			}
+		case *ast.RangeStmt:
+			for _, e := range []ast.Expr{st.Key, st.Value} {
+				if e != nil {
+					if o := objOf(g.Info, e); o != nil {
+						set(o, fvUnknown)
+					}
+				}
+			}
+			return false
+		case *ast.IncDecStmt:
+			if o := objOf(g.Info, st.X); o != nil {
+				set(o, fvUnknown)
+			}
+		}
+		return true
+	})
+	return out
+}
+
+func (g *FG) flagEnv(s flagState) Env {
+	return func(e ast.Expr) (constant.Value, bool) {
+		switch x := unparen(e).(type) {
+		case *ast.Ident:
+			if o := g.Info.Uses[x]; o != nil {
+				switch s[o] {
+				case fvTrue:
+					return constant.MakeBool(true), true
+				case fvFalse:
+					return constant.MakeBool(false), true
+				}
+			}
+		case *ast.BinaryExpr:
+			if x.Op != token.EQL && x.Op != token.NEQ {
+				return nil, false
+			}
+			var v ast.Expr
+			switch {
+			case isNilIdent(g.Info, x.Y):
+				v = x.X
+			case isNilIdent(g.Info, x.X):
+				v = x.Y
+			default:
+				return nil, false
+			}
+			if o := objOf(g.Info, v); o != nil {
+				switch s[o] {
+				case fvNil:
+					return constant.MakeBool(x.Op == token.EQL), true
+				case fvNonNil:
+					return constant.MakeBool(x.Op == token.NEQ), true
+				}
+			}
+		}
+		return nil, false
+	}
+}
+
+func (g *FG) reachThreaded(starts []*GNode, blockNode func(*GNode) bool, blockEdge func(*GEdge) bool) (map[*GNode]bool, map[*GNode]*GNode) {
+	seen := map[*GNode]bool{}
+	parent := map[*GNode]*GNode{}
+	type item struct {
+		x *GNode
+		s flagState
+	}
+	visited := map[*GNode]map[string]bool{}
+	var q []item
+	push := func(from *GNode, s flagState) {
+		s2 := g.flagTransfer(from, s)
+		var env Env
+		if len(s2) > 0 {
+			env = g.flagEnv(s2)
+		}
+		for _, e := range from.Succs {
+			if blockEdge != nil && blockEdge(e) {
+				continue
+			}
+			if env != nil && e.Cond != nil && !edgeOpen(g.Info, e, env) {
+				continue
+			}
+			if blockNode != nil && blockNode(e.To) {
+				continue
+			}
+			if !seen[e.To] {
+				seen[e.To] = true
+				parent[e.To] = from
+			}
+			k := s2.key()
+			if visited[e.To] == nil {
+				visited[e.To] = map[string]bool{}
+			}
+			if visited[e.To][k] || len(visited[e.To]) > 64 {
+				continue
+			}
+			visited[e.To][k] = true
+			q = append(q, item{e.To, s2})
+		}
+	}
+	for _, st := range starts {
+		push(st, flagState{})
+	}
+	for len(q) > 0 {
+		it := q[0]
+		q = q[1:]
+		push(it.x, it.s)
+	}
+	return seen, parent
 }
